@@ -871,6 +871,61 @@ def _w_rejects(args):
 
 # ---------------------------------------------------------------------------------------------------------
 
+VP_POINTEES = [('int', 'obj'), ('char', 'obj'), ('struct vps', 'obj'), ('int [2]', 'obj'), ('int *', 'obj'), ('double', 'obj'), ('int (void)', 'func'), ('struct vpinc', 'obj')]
+VP_QUALS = ['', 'const', 'volatile', 'const volatile']
+VP_PRE = 'struct vps { int m; }; struct vpinc;\n'
+
+
+def _vp_name(base, q, name):
+    """declarator of `name` as pointer to q-qualified base"""
+    if base == 'int [2]':
+        return '%s int (*%s)[2]' % (q, name)
+    if base == 'int (void)':
+        return 'int (*%s)(void)' % name
+    if base == 'int *':
+        return 'int *%s *%s' % (q, name)
+    return '%s %s *%s' % (q, base, name)
+
+
+def void_pointer_assignment(chk):
+    """6.5.16.1p1, third bullet: pointer to object type <-> pointer to (qualified) void, the left pointee having all qualifiers of
+    the right one; pointers to functions do not convert to void * implicitly.  Every pointee x qualifiers on both sides x direction x
+    context (assignment, initialisation, argument, return).  Both witnesses must agree with the rule before a case is judged."""
+    srv = fs.server('fs')
+    n = namb = 0
+    for base, kind in VP_POINTEES:
+        for qo in VP_QUALS:
+            if kind == 'func' and qo:
+                continue
+            for qv in VP_QUALS:
+                for tovoid in (True, False):
+                    lq, rq = (qv, qo) if tovoid else (qo, qv)
+                    valid = kind == 'obj' and set(rq.split()) <= set(lq.split())
+                    ldecl = _vp_name('void', qv, 'l') if tovoid else _vp_name(base, qo, 'l')
+                    rdecl = _vp_name(base, qo, 'r') if tovoid else _vp_name('void', qv, 'r')
+                    lparam = ldecl.replace(' l', ' ', 1) if False else ldecl
+                    for ctx, text in (('assign', 'void f(void) { %s; %s = 0; l = r; }' % (ldecl, rdecl)),
+                                      ('init', 'void f(void) { %s = 0; %s = r; (void)l; }' % (rdecl, ldecl)),
+                                      ('arg', 'void g(%s); void f(void) { %s = 0; g(r); }' % (ldecl, rdecl)),
+                                      ('return', ('%s { %s = 0; return r; }' % (_vp_name('void', qv, 'f(void)') if tovoid else _vp_name(base, qo, 'f(void)'), rdecl))
+                                      if base not in ('int [2]', 'int (void)') or tovoid else None)):
+                        if text is None:
+                            continue
+                        src = VP_PRE + text + '\n'
+                        r = srv.compile(src, cpu_s=5)
+                        n += 1
+                        if (r.status == 0) == valid and r.status in (0, 1):
+                            continue
+                        g, _ = witness.gcc_accepts(src)
+                        c, _ = witness.clang_accepts(src)
+                        if g != valid or c != valid:
+                            namb += 1
+                            continue
+                        what = 'void-pointer/%s/%s' % ('rejects-valid' if valid else ('function-pointer-accepted' if kind == 'func' else 'qualifier-discarded-accepted'), ctx)
+                        chk.violation(what, '%s: expected %s, cproc status %s' % (text, 'accepted' if valid else 'a diagnostic', r.status), files={'input.c': src.encode()}, cmd='$CPROC_QBE input.c > /dev/null; echo $?')
+    return n, namb
+
+
 def main(chk):
     q = chk.quick
     jobs = []
@@ -1070,6 +1125,9 @@ def main(chk):
         'rule': 'state = (operator, left operand kind, right operand kind) cell of the typing table (or a type of Ty2 x judgement); transition = one '
                 'observation (generic selection index, sizeof, compatibility builtin, accept/reject) of a cell on a target, compared with cmodel',
     }
+    nvp, ambvp = void_pointer_assignment(chk)
+    cov['void_pointer_assignment_cases'] = nvp
+    cov['void_pointer_assignment_not_judged'] = ambvp
     return chk.finish(cov, M.ASSUMPTIONS + [
         'the candidate types of the generic selection are mutually incompatible; an enumerated result type is observed as its underlying type '
         'plus __builtin_types_compatible_p(typeof(E), enum type)',
